@@ -153,51 +153,56 @@ def run(pid, tier):
                               transitions=res.generated, invariants=invs))
         # ---- Leg R: the same model at 64 MiB, one line per transition ----
         if thorough:
-            sizes = [0, 1, 8, 255, 256, 257, 4096, MEM - 4096, MEM - 257, MEM - 256, MEM - 8, MEM - 1, MEM, MEM + 1]
-            wl, cl = "{1, 8}", "{1, 8}"
+            gens = [("wide", 3, [0, 1, 8, 255, 256, 257, 4096, MEM - 4096, MEM - 257, MEM - 256, MEM - 8, MEM - 1, MEM, MEM + 1],
+                     "{1, 8}", "{1, 8}", 2),
+                    ("deep", 4, [0, 8, 256, MEM - 256, MEM - 8, MEM + 1], "{8}", "{8}", 1)]
         else:
-            sizes = [0, 1, 8, 256, MEM - 256, MEM - 8, MEM + 1]
-            wl, cl = "{8}", "{8}"
-        rlen = 3
-        dump = os.path.join(vlib.WORK, "%s_gen.out" % pid)
-        res2 = tc.model_check(chk, SPEC_MC, workers=1, need_actions=acts, dump_out=dump, tag=pid + "_gen", timeout=2400,
-                              constants={"MemSize": MEM, "MaxLen": rlen, "Sizes": _sizes(sizes), "WLens": wl, "CLens": cl,
-                                         "EmitReplay": "TRUE", "DepthInView": "FALSE"})
-        beh = os.path.join(vlib.WORK, "%s_beh.ndjson" % pid)
-        nbeh = tc.extract_replay(dump, beh)
-        os.remove(dump)
-        if nbeh == 0 or nbeh != res2.generated - 1:
-            raise ToolError("generator printed %d transitions, TLC generated %d states" % (nbeh, res2.generated))
-        outp = os.path.join(vlib.WORK, "%s_replay.ndjson" % pid)
-        vlib.vh(["replay", "mem", beh, "-o", outp], bin="vh_memory", timeout=2400)
-        rs = vlib.read_ndjson(outp)
-        summ = [r for r in rs if "summary" in r]
-        if not summ or summ[0]["summary"]["behaviours"] != nbeh:
-            raise ToolError("replay did not process all behaviours")
+            gens = [("quick", 3, [0, 1, 8, 256, MEM - 256, MEM - 8, MEM + 1], "{8}", "{8}", 2)]
+        nbeh_total = 0
         seen = set()
-        for r in rs:
-            if "mismatch" in r:
-                cls = "mem/replay/" + r["mismatch"]
-                if cls in seen:
-                    continue
-                seen.add(cls)
-                rp = os.path.join(vlib.WORK, "%s_mismatch.json" % pid)
-                with open(rp, "w") as f:
-                    json.dump(r, f)
-                chk.violation(cls, rp, dict(leg="R", last=tc._short(r["behaviour"]["last"], 600), pre=r["behaviour"]["pre"],
-                                            expected=tc._short(r["expected"], 600), observed=tc._short(r["observed"], 600)))
-        chk.add("behaviours_replayed", nbeh)
-        chk.add("replay_steps", summ[0]["summary"]["steps"])
-        chk.set("replay_model", dict(MemSize=MEM, MaxLen=rlen, Sizes=sorted(set(sizes)), distinct_states=res2.distinct,
-                                     transitions=nbeh))
-        with open(beh) as f:
-            for _ in range(40):
-                ln = f.readline()
-            if ln:
-                b = json.loads(ln)
-                chk.sample({"replayed_transition": {"pre": b["pre"], "last": {k: v for k, v in b["last"].items() if k != "probes"},
-                                                    "probes": b["last"]["probes"][:6]}})
-        os.remove(beh)
+        rmodels = []
+        for gname, rlen, sizes, wl, cl, msnaps in gens:
+            dump = os.path.join(vlib.WORK, "%s_gen.out" % pid)
+            res2 = tc.model_check(chk, SPEC_MC, workers=1, need_actions=acts, dump_out=dump, tag=pid + "_gen", timeout=2400,
+                                  constants={"MemSize": MEM, "MaxLen": rlen, "Sizes": _sizes(sizes), "WLens": wl, "CLens": cl,
+                                             "MaxSnaps": msnaps, "EmitReplay": "TRUE", "DepthInView": "FALSE"})
+            beh = os.path.join(vlib.WORK, "%s_beh.ndjson" % pid)
+            nbeh = tc.extract_replay(dump, beh)
+            os.remove(dump)
+            if nbeh == 0 or nbeh != res2.generated - 1:
+                raise ToolError("generator printed %d transitions, TLC generated %d states" % (nbeh, res2.generated))
+            outp = os.path.join(vlib.WORK, "%s_replay.ndjson" % pid)
+            vlib.vh(["replay", "mem", beh, "-o", outp], bin="vh_memory", timeout=2400)
+            rs = vlib.read_ndjson(outp)
+            summ = [r for r in rs if "summary" in r]
+            if not summ or summ[0]["summary"]["behaviours"] != nbeh:
+                raise ToolError("replay did not process all behaviours")
+            for r in rs:
+                if "mismatch" in r:
+                    cls = "mem/replay/" + r["mismatch"]
+                    if cls in seen:
+                        continue
+                    seen.add(cls)
+                    rp = os.path.join(vlib.WORK, "%s_mismatch.json" % pid)
+                    with open(rp, "w") as f:
+                        json.dump(r, f)
+                    chk.violation(cls, rp, dict(leg="R", last=tc._short(r["behaviour"]["last"], 600), pre=r["behaviour"]["pre"],
+                                                expected=tc._short(r["expected"], 600), observed=tc._short(r["observed"], 600)))
+            chk.add("behaviours_replayed", nbeh)
+            chk.add("replay_steps", summ[0]["summary"]["steps"])
+            nbeh_total += nbeh
+            rmodels.append(dict(name=gname, MemSize=MEM, MaxLen=rlen, Sizes=sorted(set(sizes)), WLens=wl, CLens=cl,
+                                distinct_states=res2.distinct, transitions=nbeh))
+            with open(beh) as f:
+                for _ in range(40):
+                    ln = f.readline()
+                if ln:
+                    b = json.loads(ln)
+                    chk.sample({"replayed_transition": {"pre": b["pre"], "last": {k: v for k, v in b["last"].items() if k != "probes"},
+                                                        "probes": b["last"]["probes"][:6]}})
+            os.remove(beh)
+        chk.set("replay_models", rmodels)
+        nbeh = nbeh_total
         # ---- Leg T ----
         tr = os.path.join(vlib.WORK, "%s_trace.ndjson" % pid)
         for k in range(1, 12):
